@@ -148,7 +148,8 @@ def run(chk, maxlen, nrandom, explain=False):
     chk.traces += len(cases)
     chk.extra["strata"] = dict(exhaustive=n_exh, random=nrandom, other=n_plain - n_exh - nrandom,
                                context_e2=sum(1 for c in cases if c[9] == "context-e2"),
-                               reentrant_function=sum(1 for c in cases if c[9] == "reentrant-function"))
+                               reentrant_function=sum(1 for c in cases if c[9] == "reentrant-function"),
+                               role_calls_requests=chk.extra.get("strata_extra", {}).get("role_calls_requests", 0))
     chk.extra["exhaustive_maxlen"] = maxlen
     chk.exhaustive = True
     # cross-check extraction against the kernel on a sample
@@ -209,6 +210,20 @@ def reload_stratum(chk):
     model_replaced_stratum(chk)
     text_values_stratum(chk)
     eval_conditions_stratum(chk)
+    role_calls(chk)
+
+
+def role_calls(chk):
+    """matchers that ask the role function more than once per rule (two request fields against the rule's subject; subject
+    and object in one role graph) or hand it a domain taken from the RULE, over names that are digit strings and prefixes /
+    concatenations of each other: every request of the universe under every documented effect, decision through enforce and
+    enforce_ex AND the explaining rule, against the rules the matcher is true of (enforce_cases.role_calls_stratum)"""
+    from ..enforce_cases import role_calls_stratum
+    n = role_calls_stratum(chk, "a matcher that calls the role function several times (or with a rule-side domain) over names whose "
+                                "texts concatenate alike: the decision / the explaining rule is not that of the rules whose matcher is "
+                                "true of the request (g evaluated as reachability over the stored role assignments)",
+                           classes=("Enforcer", "SyncedEnforcer") if chk.tier == "thorough" else ("Enforcer",))
+    chk.extra.setdefault("strata_extra", {})["role_calls_requests"] = n
 
 
 def text_values_stratum(chk):
@@ -755,6 +770,15 @@ def replay(chk, explain):
             print(f"VIOLATION property={chk.prop} replay={chk.replay_file}")
             sys.exit(1)
         print("replay passes: the stratum reports nothing on this tree")
+        sys.exit(0)
+    if c.get("stratum") == "role-calls":
+        from ..enforce_cases import replay_role_call
+        hit = replay_role_call(c)
+        if hit:
+            print(f"replay: impl={hit[0]} spec={hit[1]}")
+            print(f"VIOLATION property={chk.prop} replay={chk.replay_file}")
+            sys.exit(1)
+        print("replay passes: decision and explanation are those of the matching rules on this input")
         sys.exit(0)
     if "outcomes" not in c:
         print("replay file names a broken theorem/correspondence, not an input:", json.dumps(rec.get("broken"))[:800])
